@@ -40,7 +40,9 @@ class Recorder:
 
     def on_event(self, event):
         loop = self.world.loop
-        self.events.append((loop.time(), loop.iterations, event))
+        # only the kind is kept: holding on to event objects would keep users, items and connections alive that the
+        # library itself only references weakly, and hide whatever depends on them going away
+        self.events.append((loop.time(), loop.iterations, type(event).__name__))
         self.world.trace('ev', self.node.name, type(event).__name__, loop.iterations)
         for hook in self.hooks:
             hook(event)
